@@ -71,6 +71,9 @@ struct Scenario {
     /// mode "serial": whether the first attempts to open the port succeed
     #[serde(default)]
     port: bool,
+    /// the stream takes at most this many bytes per write call (0 = whole writes)
+    #[serde(default)]
+    max_write: usize,
     steps: Vec<Step>,
 }
 
@@ -294,9 +297,11 @@ async fn run_scenario(sc: &Scenario, sink: &Sink) {
     let shared = Arc::new(Shared { last_tx: Mutex::new(None) });
 
     type Sess = ClientSession;
+    let max_write = sc.max_write;
     let spawn = |mut session: Sess, sink: &Sink, polls: &Arc<AtomicU64>| {
         let (io, ioh) = script_io(sink.clone());
         ioh.record_tx(true);
+        ioh.set_max_write(max_write);
         let fut = async move {
             let r = session.run(Box::new(io)).await;
             (session, r)
